@@ -306,7 +306,9 @@ fn session(run: &mut Run, rng: &mut Rng, idx: u64, nscripts: usize) -> anyhow::R
     let seed = run.seed ^ (idx << 12) ^ 0x57;
     let mut lrng = rng.fork(idx);
     let scripts: Vec<GenScript> = (0..nscripts).map(|i| gen_script(&mut lrng, format!("s{idx}-{i}"))).collect();
-    let noise: Vec<u64> = (0..nscripts).map(|_| lrng.below(6)).collect();
+    let noise: Vec<u64> = (0..nscripts).map(|_| lrng.below(7)).collect();
+    let variant: u64 = if idx < 1000 { [0, 1, 0, 2][(idx % 4) as usize] } else { 0 };
+    run.count("serving-side", ["plain", "concurrency-limit-1", "inflight-limit-2-block"][variant as usize]);
     let rt = paused_rt();
     struct Obs {
         client: String,
@@ -320,7 +322,14 @@ fn session(run: &mut Run, rng: &mut Rng, idx: u64, nscripts: usize) -> anyhow::R
     let panics_before = PANICS.load(Ordering::SeqCst);
     let res: anyhow::Result<Vec<Obs>> = rt.block_on(async {
         let fabric = Fabric::new(seed);
-        let s = start_node(&fabric, seed, 1, config_idle(120_000))?;
+        // the serving side: plain, or (hostile-stream sessions only) behind tower's ConcurrencyLimit(1), or
+        // behind anemo-tower's per-peer in-flight limit (Block mode): a misbehaving peer must not pin the
+        // shared slot nor leak its own permits
+        let s = match variant {
+            1 => start_node_limited(&fabric, seed, 1, config_idle(120_000))?,
+            2 => start_node_inflight(&fabric, seed, 1, config_idle(120_000), 2, true)?,
+            _ => start_node(&fabric, seed, 1, config_idle(120_000))?,
+        };
         let h = start_node(&fabric, seed, 2, config_idle(120_000))?;
         let hp = h.net.connect(s.addr).await?;
         let raw = raw_node(&fabric, 3, key_of(seed, 3), "verif");
@@ -347,6 +356,14 @@ fn session(run: &mut Run, rng: &mut Rng, idx: u64, nscripts: usize) -> anyhow::R
                     if let Ok((s2, r2)) = conn.open_bi().await {
                         drop(s2);
                         drop(r2);
+                    }
+                }
+                6 => {
+                    // a request stream on which one byte arrives and then nothing, held open for good
+                    if let Ok((mut s2, r2)) = conn.open_bi().await {
+                        let _ = s2.write_all(b"a").await;
+                        std::mem::forget(s2);
+                        std::mem::forget(r2);
                     }
                 }
                 _ => {}
@@ -420,13 +437,78 @@ fn session(run: &mut Run, rng: &mut Rng, idx: u64, nscripts: usize) -> anyhow::R
             run.oracle_fail(json!({"kind": b, "ops": op.clone().map(|o| vec![o]).unwrap_or_default(), "session": idx, "script": i}));
         }
         if let (Some(op), Some(s)) = (op, sc) {
-            if !s.racy {
+            if !s.racy && variant == 0 {
                 run.count("handler", o.handler);
                 run.op(op, format!("invoked={} handler={} client={}", o.invoked, o.handler, o.client), true);
             } else {
                 run.eval(&op, true);
             }
         }
+    }
+    Ok(())
+}
+
+/// (iii) hostile bodies aimed at a TYPED handler (generated server, bincode codec) of the victim: length
+/// prefixes that promise up to 2^64-1 bytes, truncations, garbage.  The victim must answer each with an
+/// error status, stay up, and keep serving the honest typed client.
+fn typed_hostile(run: &mut Run, case: u64) -> anyhow::Result<()> {
+    use crate::codegen::{alpha, Instr, Msg, H};
+    let seed = run.seed ^ (case << 16) ^ 0x7E9;
+    let valid = bincode::serialize(&Msg { id: 5, via: "hostile".into(), instr: Instr::Reply })?;
+    let mut bodies: Vec<(&'static str, Vec<u8>)> = vec![("valid", valid.clone())];
+    for (name, len) in [("len-2^64-1", u64::MAX), ("len-2^63", 1u64 << 63), ("len-2^40", 1u64 << 40), ("len-2^31", 1u64 << 31), ("len-1MiB-short", 1u64 << 20)] {
+        let mut b = 5u64.to_le_bytes().to_vec();
+        b.extend_from_slice(&len.to_le_bytes());
+        b.extend_from_slice(b"abc");
+        bodies.push((name, b));
+    }
+    bodies.push(("truncated", valid[..valid.len() - 3].to_vec()));
+    bodies.push(("garbage", vec![0xff; 40]));
+    bodies.push(("empty", vec![]));
+    let panics_before = PANICS.load(Ordering::SeqCst);
+    let rt = paused_rt();
+    let bodies2 = bodies.clone();
+    let res: anyhow::Result<Vec<(String, String, bool, bool)>> = rt.block_on(async move {
+        let fabric = Fabric::new(seed);
+        let router = anemo::Router::new().add_rpc_service(alpha::alpha_server::AlphaServer::new(H::default()));
+        let s_addr = Fabric::addr(1);
+        let s_net = anemo::Network::bind("127.0.0.1:0").private_key(key_of(seed, 1)).server_name("verif").config(config_idle(120_000)).verif_socket(fabric.socket(s_addr)).start(router)?;
+        let s_id = s_net.peer_id();
+        let h = start_node(&fabric, seed, 2, config_idle(120_000))?;
+        h.net.connect_with_peer_id(s_addr, s_id).await?;
+        let raw = raw_node(&fabric, 3, key_of(seed, 3), "verif");
+        let conn = raw_connect(&raw, s_addr).await?;
+        let mut out = vec![];
+        for (name, body) in bodies2 {
+            mark_file(&format!("typed handler /Alpha/Ping (bincode) given a hostile body: {name} = {}", hexs(&body)));
+            let m = wire::Msg { route: "/Alpha/Ping".into(), status: StatusCode::Success, headers: vec![], body };
+            let bytes = wire::enc_req(None, &m).2;
+            let ops = vec![ScriptOp::Write(bytes), ScriptOp::Fin, ScriptOp::Wait(200), ScriptOp::Read];
+            let got = match tokio::time::timeout(Duration::from_secs(10), run_script(&conn, &ops)).await {
+                Ok(Ok(g)) => g,
+                Ok(Err(e)) => format!("error:{e}"),
+                Err(_) => "hang".into(),
+            };
+            // the honest typed client
+            let mut client = alpha::alpha_client::AlphaClient::new(h.net.peer(s_id).ok_or_else(|| anyhow::anyhow!("honest peer lost its connection"))?);
+            let honest = tokio::time::timeout(Duration::from_secs(10), client.ping(Msg { id: 77, via: String::new(), instr: Instr::Reply })).await;
+            let honest_ok = matches!(honest, Ok(Ok(r)) if r.body().id == 77);
+            out.push((name.to_string(), got, honest_ok, s_net.is_closed()));
+        }
+        Ok(out)
+    });
+    drop(rt);
+    for (name, got, honest_ok, closed) in res? {
+        let status_ok = if name == "valid" { got.starts_with("ok status=200") } else { got.starts_with("ok status=") && !got.starts_with("ok status=200") };
+        if !status_ok || !honest_ok || closed {
+            run.oracle_fail(json!({"kind": "a hostile body aimed at a typed (bincode) handler was not confined to an error answer for that request", "body": name, "answer": got.chars().take(80).collect::<String>(), "honest_typed_call_ok": honest_ok, "victim_closed": closed}));
+        }
+        run.count("typed-hostile-body", &name);
+        run.eval(&format!("typed{name}"), true);
+    }
+    let p = PANICS.load(Ordering::SeqCst) - panics_before;
+    if p > 0 {
+        run.oracle_fail(json!({"kind": "panic while a typed handler decoded a hostile body", "count": p}));
     }
     Ok(())
 }
@@ -459,6 +541,9 @@ pub fn run_c06(run: &mut Run) -> anyhow::Result<()> {
     let nsess = if run.quick() { 16 } else { 500 };
     for i in 0..nsess {
         session(run, &mut rng, i as u64, 8)?;
+    }
+    for i in 0..(if run.quick() { 2 } else { 30 }) {
+        typed_hostile(run, i)?;
     }
     Ok(())
 }
@@ -537,6 +622,8 @@ fn concurrent_scenario(run: &mut Run, rng: &mut Rng, sc: u64) -> anyhow::Result<
     // old one, whose calls fail - and must not be delivered a second time over the new one
     let redial: Option<(u64, bool)> = if lrng.chance(1, 4) && faults.loss_permille <= 50 { Some((1 + lrng.below(300), lrng.chance(1, 2))) } else { None };
     run.count("redial-mid-flight", if redial.is_some() { "yes" } else { "no" });
+    let default_timeouts = lrng.below(4);
+    run.count("default-timeouts-configured", &format!("outbound={} inbound={}", default_timeouts & 1, (default_timeouts >> 1) & 1));
     let rt = paused_rt();
     let calls2 = calls.clone();
     let f2 = faults.clone();
@@ -545,6 +632,13 @@ fn concurrent_scenario(run: &mut Run, rng: &mut Rng, sc: u64) -> anyhow::Result<
         let fabric = Fabric::new(seed);
         let mut cl: Config = config_idle(600_000);
         cl.max_frame_size = callee_limit;
+        // default deadlines (far away) must not change what the handler or the caller see
+        if default_timeouts & 1 == 1 {
+            cl.outbound_request_timeout_ms = Some(3_000_000);
+        }
+        if default_timeouts & 2 == 2 {
+            cl.inbound_request_timeout_ms = Some(3_100_000);
+        }
         let a = start_node(&fabric, seed, 1, cl.clone())?;
         let b = start_node(&fabric, seed, 2, cl)?;
         let pb = a.net.connect(b.addr).await?;
